@@ -560,13 +560,15 @@ def match_trace(st, actual, expected, label):
     eqs = []
     for (k, aa), (_, ea) in zip(act, exp):
         for x, y in zip(aa, ea):
+            if y is None:                                          # wildcard in the expected event
+                continue
             if isinstance(x, tuple) or isinstance(y, tuple):      # for-each template
                 if not (isinstance(x, tuple) and isinstance(y, tuple)) or [t[0] for t in x] != [t[0] for t in y]:
                     st.oblige(f"trace:{label}: for-each body pattern of {k}", z3.BoolVal(False), "trace"); return
                 for (k1, g1, a1), (k2, g2, a2) in zip(x, y):
                     if len(a1) != len(a2):
                         st.oblige(f"trace:{label}: for-each body pattern of {k}", z3.BoolVal(False), "trace"); return
-                    eqs += [p == q for p, q in zip(a1, a2)]
+                    eqs += [p == q for p, q in zip(a1, a2) if q is not None]
                     if (g1 is None) != (g2 is None):
                         eqs.append((g1 if g1 is not None else z3.BoolVal(True)) == (g2 if g2 is not None else z3.BoolVal(True)))
                     elif g1 is not None:
